@@ -34,7 +34,7 @@ def std_registry():
     if _flat_ok(d, lambda k: isinstance(k, tuple) and len(k) == 2):
         return list(d.items()), "reflection"
     dts = {0}
-    for c in command.Command._commands:
+    for c in all_commands()[0]:
         if isinstance(c, type) and issubclass(c, gg._StandardCommand) and _int(getattr(c, "devicetype", None)):
             dts.add(c.devicetype)
     items = []
@@ -101,3 +101,175 @@ def canon(obj, depth=0):
     if isinstance(obj, (set, frozenset)):
         return sorted(str(canon(v, depth + 1)) for v in obj)
     return repr(obj)
+
+
+# ---- registries whose NAME or representation a maintainer may change ------------------------------------------
+# The library keeps several class-level registries that only order / enumerate classes (which families decode a
+# frame of a given length, which address kinds exist, which event classes belong to an instance type …).  They
+# are private: their names and container types are the library's business.  `holder(...)` finds such a registry
+# by what it CONTAINS (classes derived from a given base), trying the historical name first, and flattens it to
+# an ordered list (or a keyed list); when no attribute qualifies, the classes are found by walking subclasses in
+# creation order.  The theorems that consume these lists are order-independent wherever the library's own
+# dispatch is (see Props/C04 `decode_partition`), and TableOK re-checks the rest on every run.
+
+def _flatten(x, out=None):
+    out = [] if out is None else out
+    if isinstance(x, type):
+        out.append(x)
+    elif isinstance(x, dict):
+        for v in x.values():
+            _flatten(v, out)
+    elif isinstance(x, (list, tuple)):
+        for v in x:
+            _flatten(v, out)
+    elif isinstance(x, (set, frozenset)):
+        for v in sorted(x, key=lambda c: getattr(c, "__qualname__", str(c))):
+            _flatten(v, out)
+    return out
+
+
+def _walk(base):
+    seen = []
+    stack = [base]
+    while stack:
+        c = stack.pop(0)
+        for s in c.__subclasses__():
+            if s not in seen:
+                seen.append(s)
+                stack.append(s)
+    return seen
+
+
+def _candidates(owner):
+    seen = set()
+    for k in owner.__mro__:
+        if k is object:
+            continue
+        for name, v in vars(k).items():
+            if name in seen or name.startswith("__"):
+                continue
+            seen.add(name)
+            if isinstance(v, (list, tuple, dict, set, frozenset)):
+                yield name, v
+
+
+def holder(owner, legacy, base, member_ok=lambda c: True):
+    """(ordered list of classes, how)"""
+    def good(v):
+        cs = _flatten(v)
+        return cs and all(isinstance(c, type) and issubclass(c, base) for c in cs) and any(member_ok(c) for c in cs)
+    v = getattr(owner, legacy, None)
+    if v is not None and good(v):
+        return _dedupe(_flatten(v)), "reflection:" + legacy
+    best = None
+    for name, v in _candidates(owner):
+        if good(v):
+            cs = _dedupe(_flatten(v))
+            if best is None or len(cs) > len(best[0]):
+                best = (cs, "reflection:" + name)
+    if best:
+        return best
+    return [c for c in _walk(base) if member_ok(c)], "subclass-walk"
+
+
+def _dedupe(l):
+    out = []
+    for x in l:
+        if x not in out:
+            out.append(x)
+    return out
+
+
+def keyed_holder(owner, legacy, base):
+    """[(int key, [classes])] of a registry that maps small integers to a class or to a list of classes"""
+    def items_of(v):
+        if not isinstance(v, dict):
+            return None
+        out = []
+        for k, x in v.items():
+            if not _int(k):
+                continue
+            cs = _flatten(x)
+            if not cs or not all(isinstance(c, type) and issubclass(c, base) for c in cs):
+                return None
+            out.append((k, cs))
+        return out or None
+    v = getattr(owner, legacy, None)
+    it = items_of(v) if v is not None else None
+    if it:
+        return it, "reflection:" + legacy
+    best = None
+    for name, v in _candidates(owner):
+        it = items_of(v)
+        if it and (best is None or sum(len(c) for _, c in it) > sum(len(c) for _, c in best[0])):
+            best = (it, "reflection:" + name)
+    return best if best else ([], "not-found")
+
+
+def all_commands():
+    """every command class the library registers (historically `Command._commands`)"""
+    from dali import command
+    v = getattr(command.Command, "_commands", None)
+    if isinstance(v, (list, tuple, set, frozenset)) and v and all(isinstance(c, type) for c in v):
+        return list(v), "reflection:_commands"
+    for name, x in _candidates(command.Command):
+        cs = _flatten(x) if not isinstance(x, dict) else []
+        if len(cs) > 100 and all(isinstance(c, type) and issubclass(c, command.Command) for c in cs):
+            return _dedupe(cs), "reflection:" + name
+    return [c for c in _walk(command.Command) if not c.__name__.startswith("_")], "subclass-walk"
+
+
+def gear_families():
+    from dali.gear import general as gg
+    return holder(gg._GearCommand, "_gearcommands", gg._GearCommand)
+
+
+def device_families():
+    from dali.device import general as dg
+    return holder(dg._DeviceCommand, "_devicecommands", dg._DeviceCommand)
+
+
+def address_kinds():
+    from dali import address
+    return holder(address.Address, "_addrtypes", address.Address)
+
+
+def frame_sizes():
+    """[(frame length, [top-level families])] (historically `Command._framesizes`)"""
+    from dali import command
+    it, how = keyed_holder(command.Command, "_framesizes", command.Command)
+    if it:
+        return it, how
+    # derive: the direct families declare the frame length they decode
+    out = {}
+    for c in command.Command.__subclasses__():
+        n = getattr(c, "_framesize", None)
+        if _int(n):
+            out.setdefault(n, []).append(c)
+    return sorted(out.items()), "derived:_framesize"
+
+
+def instance_types():
+    from dali.device import general as dg
+    return keyed_holder(dg._Event, "_instance_types", dg._Event)
+
+
+def pushbutton_events():
+    from dali.device import pushbutton
+    return keyed_holder(pushbutton._PushbuttonEvent, "_event_classes", pushbutton._PushbuttonEvent)
+
+
+def snapshot_all():
+    """printable, order-independent snapshot of every class-level container of the decoding classes, whatever
+    they are called (purity check of C01: decoding must not write to any of them)"""
+    from dali import command, address
+    from dali.gear import general as gg
+    from dali.device import general as dg, pushbutton
+    parts = []
+    owners = [command.Command, gg._GearCommand, gg._StandardCommand, gg._SpecialCommand, dg._DeviceCommand,
+              dg._StandardDeviceCommand, dg._StandardInstanceCommand, dg._Event, pushbutton._PushbuttonEvent,
+              address.Address]
+    for o in owners:
+        for name, v in sorted(_candidates(o), key=lambda nv: nv[0]):
+            parts.append((o.__name__, name, canon(v)))
+    return parts
